@@ -74,12 +74,18 @@ fn make_rng(seed: u64, gen: &str, n: usize, stream: u64, fault: &Value) -> SimRn
             "q" => crate::rng::EntropyFault::Bytes(wide(&q, &[0u8; 32])),
             "hiq" => crate::rng::EntropyFault::Bytes(wide(&[0u8; 32], &q)),
             "2q" => crate::rng::EntropyFault::Bytes(twoq),
-            "repeat" => crate::rng::EntropyFault::RepeatPrevious,
+            "q-1" => crate::rng::EntropyFault::Bytes(wide(&(-Scalar::one()).to_bytes(), &[0u8; 32])),
+            "repeat" | "negate" => crate::rng::EntropyFault::RepeatPrevious,
             _ => crate::harness_error("C19: unknown entropy fault kind"),
         };
         let mut m = std::collections::BTreeMap::new();
         for i in at..at + width {
             m.insert(i, f.clone());
+        }
+        if fault["kind"] == "negate" {
+            // the field-element draw repeats and the sign word that follows it comes back with its
+            // parity flipped: the generator hands out the negation of the previous group element
+            m.insert(at + 1, crate::rng::EntropyFault::RepeatPreviousFlipped);
         }
         SimRng::with_faults(seed, &l, m)
     };
@@ -90,7 +96,7 @@ fn make_rng(seed: u64, gen: &str, n: usize, stream: u64, fault: &Value) -> SimRn
 fn fault_counter(fault: &Value) -> &'static str {
     match fault["kind"].as_str().unwrap_or("zeros") {
         "zeros" => "fault.entropy_zero_draw",
-        "repeat" => "fault.entropy_repeated_draw",
+        "repeat" | "negate" => "fault.entropy_repeated_draw",
         _ => "fault.entropy_modulus_multiple_draw",
     }
 }
@@ -406,8 +412,11 @@ impl Prop for C19 {
                                           "fault": {"at": at, "width": width}, "baseline": d}));
                         }
                         // non-zero draws that reduce to zero, and a stuck generator
-                        for (kind, width) in [("q", 1usize), ("hiq", 1), ("2q", 1), ("repeat", 1), ("repeat", 2)] {
-                            if gen != "keypair" && kind != "repeat" && kind != "q" {
+                        for (kind, width) in [("q", 1usize), ("hiq", 1), ("2q", 1), ("q-1", 1), ("repeat", 1), ("repeat", 2), ("negate", 1)] {
+                            if gen != "keypair" && kind != "repeat" && kind != "q" && kind != "negate" {
+                                continue;
+                            }
+                            if gen == "keypair" && kind == "negate" {
                                 continue;
                             }
                             v.push(json!({"gen": gen, "n": n, "seed": seed, "stream": stream,
@@ -424,7 +433,8 @@ impl Prop for C19 {
             }
             // range parameters: every draw of the key pair, and a share of the signature draws
             let kd = baseline_draws(seed, "keypair", 1, stream); // same prefix length class as the embedded key pair
-            let d = baseline_draws(seed, "range", 0, stream);
+            let dl = baseline_draws_list(seed, "range", 0, stream);
+            let d = dl.len();
             v.push(json!({"gen": "range", "n": 0, "seed": seed, "stream": stream, "fault": null, "baseline": d}));
             for at in 0..d {
                 let in_key = at < kd + 4;
@@ -439,8 +449,12 @@ impl Prop for C19 {
                     v.push(json!({"gen": "range", "n": 0, "seed": seed, "stream": stream,
                                   "fault": {"at": at, "width": width}, "baseline": d}));
                 }
-                for kind in ["q", "hiq", "2q", "repeat"] {
-                    if !in_key && !(tier == Tier::Thorough && at % 4 == 0) && kind != ["q", "hiq", "2q", "repeat"][at % 4] {
+                for kind in ["q", "hiq", "2q", "repeat", "q-1", "negate"] {
+                    // outside the embedded key pair the draws are group elements (a 96-byte field
+                    // element, then a sign word): the group-element kinds at every such draw
+                    let fill_here = dl.get(at) == Some(&crate::rng::DrawKind::Fill(96));
+                    let take = if in_key { kind != "negate" } else if kind == "negate" || kind == "repeat" { fill_here } else { tier == Tier::Thorough && at % 4 == 0 };
+                    if !take {
                         continue;
                     }
                     v.push(json!({"gen": "range", "n": 0, "seed": seed, "stream": stream,
@@ -461,7 +475,7 @@ impl Prop for C19 {
                 let width = 1 + sch.usize(3);
                 v.push(json!({"gen": "merchant", "n": 0, "seed": seed, "stream": stream,
                               "fault": {"at": at, "width": width}, "baseline": d}));
-                let kind = ["q", "hiq", "2q", "repeat"][sch.usize(4)];
+                let kind = ["q", "hiq", "2q", "repeat", "q-1", "negate"][sch.usize(6)];
                 v.push(json!({"gen": "merchant", "n": 0, "seed": seed, "stream": stream,
                               "fault": {"at": at, "width": 1, "kind": kind}, "baseline": d}));
             }
